@@ -4,6 +4,7 @@ import (
 	"fmt"
 	"strconv"
 	"strings"
+	"unicode/utf8"
 
 	bexpr "github.com/hashicorp/go-bexpr"
 	"github.com/hashicorp/go-bexpr/grammar"
@@ -122,8 +123,8 @@ func spellLit(s string, style int) (string, bool) {
 		// a double-quoted text of the form "/seg/seg" is (also) the JSON-pointer production; its value is the spelled text
 		return q, true
 	default:
-		if strings.ContainsAny(s, "`\r") {
-			return "", false
+		if strings.ContainsAny(s, "`\r") || !utf8.ValidString(s) {
+			return "", false // the input of the parser is UTF-8 text: bytes that are not can only be spelled by an escape
 		}
 		return "`" + s + "`", true
 	}
@@ -485,7 +486,8 @@ func c16Chains() []any {
 }
 
 func c16Strings(maxLen int) []string {
-	alpha := []string{"a", "/", "~", "\"", "`", "\\", " ", "\n", "\r", "\x00", "é", "0", "-", "."}
+	// ... plus a byte that is not UTF-8 (spelled \xff) and the replacement character itself (a perfectly valid rune)
+	alpha := []string{"a", "/", "~", "\"", "`", "\\", " ", "\n", "\r", "\x00", "é", "0", "-", ".", "\xff", "\ufffd"}
 	out := []string{""}
 	prev := []string{""}
 	for n := 1; n <= maxLen; n++ {
@@ -611,12 +613,17 @@ func runC16(c *eng.Ctx) {
 				spellings = append(spellings, q)
 				// alternative escape spelling of every rune
 				alt := "\""
-				for _, r := range s {
-					if r < 0x80 {
+				for i := 0; i < len(s); {
+					r, size := utf8.DecodeRuneInString(s[i:])
+					switch {
+					case r == utf8.RuneError && size == 1:
+						alt += fmt.Sprintf("\\x%02x", s[i]) // a byte that is not UTF-8 has only this spelling
+					case r < 0x80:
 						alt += fmt.Sprintf("\\x%02x", r)
-					} else {
+					default:
 						alt += fmt.Sprintf("\\u%04x", r)
 					}
+					i += size
 				}
 				alt += "\""
 				if !strings.Contains(alt[1:len(alt)-1], "\"") {
@@ -626,8 +633,19 @@ func runC16(c *eng.Ctx) {
 			if q, ok := spellLit(s, StyleBacktick); ok {
 				spellings = append(spellings, q)
 			}
-			datum := map[string]interface{}{"X": s}
-			for qi, q := range spellings {
+			// a back-quoted literal CONTAINING raw carriage returns is legal text; as in Go's raw strings the carriage returns are
+			// not part of the string it denotes (hand-written multi-line literals with CR-LF line ends)
+			type spelt struct{ q, want string }
+			sp2 := make([]spelt, 0, len(spellings)+1)
+			for _, q := range spellings {
+				sp2 = append(sp2, spelt{q, s})
+			}
+			if strings.Contains(s, "\r") && !strings.Contains(s, "`") && utf8.ValidString(s) {
+				sp2 = append(sp2, spelt{"`" + s + "`", strings.ReplaceAll(s, "\r", "")})
+			}
+			for qi, sq := range sp2 {
+				q, s := sq.q, sq.want
+				datum := map[string]interface{}{"X": s}
 				for ti, tmpl := range []string{"X == %s", "%s in X", "X != %s", "X==%s", "any X as c { c == %s }"} {
 					src := fmt.Sprintf(tmpl, q)
 					co := map[string]int{"f": 3, "u": unit, "q": qi, "t": ti}
